@@ -137,6 +137,10 @@ func evalC06(c *Ctx, cs *Case) {
 			}
 		}
 	}
+	// the root "." IS the target directory: it exists whenever the target does
+	if cs.Kind != "exhaustive" || !c.Quick() || cs.Seed%4 == 1 {
+		c06DotRoot(c, cs, merged, fkey)
+	}
 	// OS refusals
 	c06Refusals(c, cs, f, fkey, r, cs.Kind == "exhaustive" && (!c.Quick() || cs.Seed%3 == 0))
 	if nontrivial && c.WantSample(cs.Kind) {
@@ -487,5 +491,56 @@ func c06Refusals(c *Ctx, cs *Case, f model.Forest, fkey string, r *gen.Rand, all
 		}
 		cs.Entry = ""
 		j.Remove()
+	}
+}
+
+// c06DotRoot: a tree whose root is named "." (a legal single path element that names the target
+// itself) with the forest below it. On an existing target - empty or not - the root exists, so the
+// call must fail with ErrExistPath and change nothing.
+func c06DotRoot(c *Ctx, cs *Case, merged model.Forest, fkey string) {
+	dot := &model.Node{Name: ".", Kids: merged}
+	doc := gen.Spell(model.Forest{dot}, gen.Canonical)
+	for _, populated := range []bool{false, true} {
+		for ri, rt := range []fsRoute{mkdirRoutes[0], mkdirRoutes[1]} {
+			for _, massive := range []bool{false, true} {
+				if massive && (int(cs.Seed)+ri)%2 == 0 {
+					continue
+				}
+				j, err := mon.NewJail(c.TmpDir, true)
+				if err != nil {
+					return
+				}
+				if populated {
+					os.MkdirAll(filepath.Join(j.Target, "zz_unrelated"), 0o755)
+				}
+				before := j.Snap()
+				exts := ExtLists[3]
+				base := runtime.NumGoroutine()
+				cs.Entry = rt.Name + map[bool]string{true: "[massive]", false: ""}[massive]
+				if massive {
+					cs.SetDoc(doc)
+					c.Rejournal(cs)
+					cs.Doc, cs.DocText = nil, ""
+				}
+				o := mkdirCall(rt, doc, dot, fsOpts(j.Target, exts, true, false, massive, false))
+				if massive {
+					c06Quiet.Quiesce(base)
+				}
+				diff := mon.Diff(before, j.Snap())
+				j.Remove()
+				c.Eval(gen.HashString(fkey+"\x00dotroot"+cs.Entry+strconv.FormatBool(populated)), true)
+				c.Count("dot_root_cases", 1)
+				det := map[string]any{"doc": doc, "target_populated": populated, "err": errStr(o.Err), "diff": diff}
+				switch {
+				case o.Panic != nil:
+					c.Violation(cs, "panic", PanicSig(o.Panic, o.Stack), det)
+				case !errors.Is(o.Err, gtree.ErrExistPath):
+					c.Violation(cs, "exist.wrong-error", "dot-root", det)
+				case len(diff) != 0:
+					c.Violation(cs, "exist.fs-changed", "dot-root", det)
+				}
+				cs.Entry = ""
+			}
+		}
 	}
 }
